@@ -2,6 +2,7 @@ package catalog
 
 import (
 	"encoding/json"
+	"sync"
 
 	"github.com/jsightapi/jsight-schema-core/bytes"
 	"github.com/jsightapi/jsight-schema-core/notations/regex"
@@ -11,6 +12,26 @@ import (
 
 type ExchangeRegexSchema struct {
 	*regex.RSchema
+
+	// example keeps the example generated on the first serialisation: the generator of RSchema is stateful and
+	// would return another string on every call.
+	example *regexExample
+}
+
+type regexExample struct {
+	once  sync.Once
+	value []byte
+	err   error
+}
+
+func (e ExchangeRegexSchema) cachedExample() ([]byte, error) {
+	if e.example == nil {
+		return e.Example()
+	}
+	e.example.once.Do(func() {
+		e.example.value, e.example.err = e.Example()
+	})
+	return e.example.value, e.example.err
 }
 
 func (e ExchangeRegexSchema) MarshalJSON() ([]byte, error) {
@@ -29,7 +50,7 @@ func (e ExchangeRegexSchema) MarshalJSON() ([]byte, error) {
 		return []byte{}, err
 	}
 
-	example, err := e.Example()
+	example, err := e.cachedExample()
 	if err != nil {
 		return []byte{}, err
 	}
@@ -45,9 +66,9 @@ func (e ExchangeRegexSchema) Notation() notation.SchemaNotation {
 
 func NewExchangeRegexSchema(regexStr bytes.Bytes) (*ExchangeRegexSchema, error) {
 	s := regex.New("", regexStr)
-	return &ExchangeRegexSchema{RSchema: s}, nil
+	return &ExchangeRegexSchema{RSchema: s, example: &regexExample{}}, nil
 }
 
 func newExchangeRegexSchema(s *regex.RSchema) *ExchangeRegexSchema {
-	return &ExchangeRegexSchema{RSchema: s}
+	return &ExchangeRegexSchema{RSchema: s, example: &regexExample{}}
 }
